@@ -172,7 +172,16 @@ pub fn stub_response(kind: &str, payload: &str) -> (Vec<Ev>, Option<Vec<u8>>) {
     h.write_str(kind);
     h.write_str(payload);
     let short: String = payload.chars().take(24).collect();
-    let ev = Ev { ty: format!("stub-{}", kind), attrs: vec![("payload".to_string(), short.clone())] };
+    // event types a module of a real chain may emit, including ones the wasm module gives a meaning to
+    let x = h.finish();
+    let ty = match (x >> 8) % 6 {
+        0 => "message".to_string(),
+        1 => "transfer".to_string(),
+        2 => "wasm".to_string(),
+        3 => "reply".to_string(),
+        _ => format!("stub-{}", kind),
+    };
+    let ev = Ev { ty, attrs: vec![("payload".to_string(), short.clone())] };
     let data = format!("{}:{}", kind, short).into_bytes();
     match h.finish() % 4 {
         0 => (vec![], None),
